@@ -250,6 +250,7 @@ type c15Case struct {
 	faults    map[string]bool
 	shape     []string
 	lastFlush string // error class of the most recent Flush
+	deadline  bool   // the caller has set a write deadline through Conn() that has already expired
 }
 
 func (cs *c15Case) envs() string {
@@ -258,7 +259,7 @@ func (cs *c15Case) envs() string {
 		switch {
 		case !s.up:
 			out[i] = "down"
-		case cs.backdoor || s.wasDown:
+		case cs.backdoor || s.wasDown || cs.deadline:
 			out[i] = "sock"
 		default:
 			out[i] = "ok"
@@ -620,6 +621,17 @@ func (cs *c15Case) run() {
 			cs.faults["backdoor"] = true
 			cs.c.Cov.Hit("fault.backdoor")
 		}
+		if cs.profile == "deadline" && !cs.closed && !cs.deadline && r.Chance(55) {
+			// a send fault of another kind: the caller set a write deadline on the connection and it has expired when the
+			// message is flushed (conn.Write fails with a timeout); the deadline is lifted after that flush
+			if r.Bool() {
+				cs.doWrite("write", cs.chunk(r.Range(1, 40000)))
+			}
+			cs.single.Conn().SetWriteDeadline(time.Now().Add(-time.Second))
+			cs.deadline = true
+			cs.faults["deadline"] = true
+			cs.c.Cov.Hit("fault.write-deadline-expired")
+		}
 		if cs.profile == "sinkdown" && !cs.closed {
 			if !cs.anyDown() && r.Chance(60) {
 				cs.sinks[cs.victim].down()
@@ -692,6 +704,12 @@ func (cs *c15Case) run() {
 			return
 		}
 		cs.doFlush()
+		if cs.deadline {
+			if !cs.closed {
+				cs.single.Conn().SetWriteDeadline(time.Time{})
+			}
+			cs.deadline = false
+		}
 		if cs.failed {
 			return
 		}
@@ -744,11 +762,11 @@ func (cs *c15Case) run() {
 func suiteC15(c *Ctx) {
 	c.Cov.Rule = "one case = one real transport (TUDPTransport, or TMultiUDPTransport over 1/2/3 destinations) with a loopback sink per destination, a random call sequence by profile " +
 		"(clean: every write fits, incl. empty and exactly-filling ones; limit: sizes room-1/room/room+1/64999/65000/65001; oversize: a write that cannot fit at a random position, after which the writer abandons without flushing / discards with one Flush / carries on / retries smaller; " +
-		"backdoor: trans.Conn().Close() behind the transport's back; sinkdown: a sink goes away and comes back (lost datagram, then ECONNREFUSED); close: Close mid-message, Close twice, use after Close; chaos: all of these); " +
+		"backdoor: trans.Conn().Close() behind the transport's back; sinkdown: a sink goes away and comes back (lost datagram, then ECONNREFUSED); deadline: a write deadline set through Conn() has expired when a message is flushed (timeout error); close: Close mid-message, Close twice, use after Close; chaos: all of these); " +
 		"every call is one judged line (result and datagrams received since the previous call, byte for byte, run-length encoded); a case ends at its first failure. " +
 		"nontrivial = the case contains an observed fault (refused write, send error, back-door close, sink down, Close followed by further calls) or a write that fills the buffer exactly; distinct by (mode, k, profile, sequence of call kinds and sizes)"
 	n := c.N(260, 4000)
-	profiles := []string{"clean", "clean", "clean", "limit", "limit", "oversize", "oversize", "oversize", "backdoor", "backdoor", "sinkdown", "sinkdown", "close", "chaos"}
+	profiles := []string{"clean", "clean", "clean", "limit", "limit", "oversize", "oversize", "oversize", "backdoor", "backdoor", "sinkdown", "sinkdown", "close", "chaos", "deadline", "deadline"}
 	for i := 0; i < n; i++ {
 		r := c.Rng.Fork()
 		cs := &c15Case{c: c, r: r, faults: map[string]bool{}}
@@ -757,7 +775,7 @@ func suiteC15(c *Ctx) {
 		cs.k = 1
 		if cs.multi {
 			cs.k = []int{1, 2, 3, 3}[r.Intn(4)]
-			if cs.profile == "backdoor" { // the multi transport does not expose its connections
+			if cs.profile == "backdoor" || cs.profile == "deadline" { // the multi transport does not expose its connections
 				cs.profile = "sinkdown"
 			}
 		}
